@@ -93,6 +93,14 @@ def main():
         if os.path.exists(os.path.join(src, 'notes.md')):
             shutil.copy(os.path.join(src, 'notes.md'), os.path.join(d, 'notes.md'))
     meta['needs'] = 'see notes.md'
+    if os.path.exists(os.path.join(d, 'meta.json')):
+        try:
+            oldm = json.load(open(os.path.join(d, 'meta.json')))
+            for k in ('summary', 'needs'):
+                if k in oldm and oldm[k] != 'see notes.md':
+                    meta[k] = oldm[k]
+        except ValueError:
+            pass
     json.dump(meta, open(os.path.join(d, 'meta.json'), 'w'), indent=1)
     print('caught by:', json.dumps(caught))
     print('OWN PROPERTY %s: %s' % (prop, 'CAUGHT' if prop in caught else 'MISSED'))
